@@ -79,6 +79,8 @@ def shards(tier):
 VALUE_TEXTS = ['-3', '-2', '-1', '0', '1', '2', '-1.0', '-2.0', '1.0', '0.5', '-0.5', '1E3', '1000', '15.995', '15.9949',
                '-15.995', 'Oxidation', 'Acetyl', 'oxidation', 'U:35', 'Formula:C2', 'Formula:C3', '2305843009213693951',
                '2305843009213693952', '-2305843009213693951']
+CANONICAL_VALUE_TEXTS = {'-3', '-2', '-1', '0', '1', '2', '-1.0', '-2.0', '1.0', '0.5', '-0.5', '1000', '15.995', '15.9949',
+                         '-15.995', 'Oxidation', 'Acetyl', 'U:35', 'Formula:C2'}   # written the way the library writes them
 VALUE_SLOTS = ['res', 'nterm', 'cterm', 'labile', 'unknown', 'iv', 'static']
 
 
@@ -278,6 +280,15 @@ def check(case, ctx):
                         ctx.fail('eq-value-sensitivity', want, x == y, text=[s1, s2], slot=slot)
                         break
             if slot != 'static':
+                # the dictionary round trip reproduces each string as written, whichever equal-valued spelling was
+                # handled before it in this process (1 / 1.0, -2 / -2.0, 1000 / 1E3)
+                for t in (t1, t2, t1):
+                    if t in CANONICAL_VALUE_TEXTS:
+                        sx = pmodel.render(_value_form(slot, t, 1))
+                        st, back = lib.call(lambda: p.add_mods(p.strip_mods(sx), p.get_mods(sx)))
+                        ctx.evals += 1
+                        if st != 'ok' or back != sx:
+                            ctx.fail('add_mods-reproduces-original-string', sx, back, text=sx, after=[t1, t2])
                 x, y = p.Mod(v1, 1), p.Mod(v2, 1)
                 if (x == y) is not same or (same and hash(x) != hash(y)):
                     ctx.fail('Mod-eq-value-sensitivity', same, x == y, values=[t1, t2])
